@@ -62,6 +62,8 @@ func c19Toks(i int) []refdb.Tok {
 type c19Corpus struct {
 	Fracs    [][]int `json:"fracs"`
 	SealLast bool    `json:"seal_last"`
+	// RawGroups: the group-by tokens are byte strings that are not valid UTF-8 ("g\xfe", "g\xff")
+	RawGroups bool `json:"raw_groups,omitempty"`
 }
 
 type c19Req struct {
@@ -166,7 +168,15 @@ func c19Handle(raw json.RawMessage) any {
 		for fi, fr := range job.Corpus.Fracs {
 			var docs []refdb.Doc
 			for _, i := range fr {
-				docs = append(docs, c19Doc(i))
+				d := c19Doc(i)
+				if job.Corpus.RawGroups {
+					for k := range d.Toks {
+						if d.Toks[k].F == "g" {
+							d.Toks[k].V = "g" + string([]byte{0xfe + byte(i%2)})
+						}
+					}
+				}
+				docs = append(docs, d)
 			}
 			d, m := vfrac.BuildBulk(docs, 1)
 			if err := fm.Append(context.Background(), d, m); err != nil {
@@ -289,6 +299,9 @@ func (e *c19Explorer) run(corp c19Corpus, base vcrash.FS, req c19Req, only *c19C
 			e.r.Violation("async-differs-from-sync "+sig, c0, fmt.Sprintf("async %s\nsync  %s", res.Async, res.Sync))
 			return
 		}
+	}
+	if corp.RawGroups {
+		return // this corpus only compares the finished async answer with the synchronous one
 	}
 	want := res.Sync
 	journal := rebase(res.Journal, dir)
@@ -422,6 +435,11 @@ func TestVerifC19(t *testing.T) {
 	if r.Thorough() {
 		corpora = append(corpora, c19Corpus{Fracs: [][]int{{0, 1, 2, 3}}, SealLast: true}, c19Corpus{Fracs: [][]int{{5}, {4}, {3}}}, c19Corpus{Fracs: [][]int{{0, 2}, {1, 3}}, SealLast: true})
 	}
+	// group-by over tokens that are not valid UTF-8: one corpus, one request
+	rawJobs := []struct {
+		c   c19Corpus
+		req c19Req
+	}{{c19Corpus{Fracs: [][]int{{0, 1}, {2, 3}}, RawGroups: true}, c19Req{Query: "*", Agg: "count:g"}}}
 	queries := []string{"*", `k:"a*"`, `(not k:"b")`, `m:"x y"`}
 	var reqs []c19Req
 	for _, q := range queries {
@@ -443,6 +461,9 @@ func TestVerifC19(t *testing.T) {
 		for _, rq := range reqs {
 			jobs = append(jobs, job{c, base, rq})
 		}
+	}
+	for _, rj := range rawJobs {
+		jobs = append(jobs, job{rj.c, prepare(rj.c), rj.req})
 	}
 	vlib.Parallel(len(jobs), vlib.Workers(), func(i int) {
 		if r.Expired() {
